@@ -1,10 +1,18 @@
 use crate::common::Tier;
 
+pub mod analysis;
+pub mod dbg;
 pub mod ll;
+pub mod lr;
+pub mod transform;
 
 pub fn run(id: &str, tier: Tier, replay: Option<&str>) -> i32 {
     match id {
         "C01" | "C02" => ll::run(id, tier, replay),
+        "C09" | "C10" | "C11" | "C12" => transform::run(id, tier, replay),
+        "C03" | "C04" => lr::run(id, tier, replay),
+        "C05" | "C06" | "C07" | "C08" => analysis::run(id, tier, replay),
+        "dbg" => dbg::run(&std::env::args().skip(2).collect::<Vec<_>>()),
         "spaces" => {
             ll::print_spaces();
             0
